@@ -315,7 +315,7 @@ func (cr *checkRun) writeEvidence(locked map[string]bool, violations int, known 
 			discharged++
 			perBackend[o.Backend]++
 		}
-		if len(samples) < 6 && o.Backend != "syntactic" && (len(samples) == 0 || samples[len(samples)-1].Name[:strings.Index(samples[len(samples)-1].Name, "/")] != o.Fn || len(samples) < 3) {
+		if len(samples) < 6 && o.Backend != "syntactic" && (len(samples) < 3 || !strings.HasPrefix(samples[len(samples)-1].Name, o.Fn)) {
 			samples = append(samples, sample{o.Name, o.Human, o.Where, o.Status, o.Backend, o.Ms})
 		}
 	}
